@@ -3,8 +3,10 @@ package c06
 import (
 	"fmt"
 
+	"verif/internal/engine"
 	"verif/internal/gen"
 	"verif/internal/oracle/brute"
+	"verif/internal/oracle/codec"
 	"verif/internal/oracle/iso"
 	"verif/internal/oracle/rg"
 	"verif/internal/selfcheck"
@@ -258,6 +260,120 @@ func init() {
 			if !refSparse6Decode(refSparse6(h)).Equal(h) {
 				return fmt.Errorf("sparse6 writer/reader disagree on C%d", n+1)
 			}
+		}
+		return nil
+	})
+	selfcheck.Add("c06 free-form writers (sparse6 in any order with repeats and loops, Multicode in any order, edge bytes 1..255)", func() error {
+		// hand-made strings with a published meaning: the star K1,3 with the pairs of vertex 3 as 2,0,1 and as 0,1,2
+		star := refStar(4)
+		if !star.Has(0, 1) { // refStar has its centre at 0: relabel to centre 3
+			return fmt.Errorf("refStar(4)")
+		}
+		star3 := rg.New(4)
+		star3.Add(3, 0)
+		star3.Add(3, 1)
+		star3.Add(3, 2)
+		for _, s := range []string{":CY@", codec.Sparse6(4, star3.Edges())} {
+			sc, err := codec.Sparse6Scan(s, 100)
+			if err != nil || !sc.Graph().Equal(star3) || !refSparse6Decode(s).Equal(star3) {
+				return fmt.Errorf("%q is not read as the star with centre 3", s)
+			}
+		}
+		rnd := engine.NewRng(20260928)
+		var tot s6Info
+		written, certified := 0, 0
+		try := func(g *rg.G) error {
+			if g.N < 2 {
+				return nil
+			}
+			written++
+			s, info, ok := wildSparse6(g, rnd)
+			if !ok {
+				return nil
+			}
+			certified++
+			body := s
+			if info.Header {
+				body = s[len(codec.S6Header):]
+			}
+			if !refSparse6Decode(body).Equal(g) {
+				return fmt.Errorf("free-form sparse6 %q of %s is read as another graph by the second reader", s, g)
+			}
+			sc, err := codec.Sparse6Scan(s, maxN)
+			if err != nil || (info.Loops > 0) != (sc.Loops > 0) || (info.AdjacentRepeats+info.SeparatedRepeats > 0) != (sc.Repeats > 0) || (info.Beyond > 0 && sc.Beyond == 0) {
+				return fmt.Errorf("free-form sparse6 %q of %s: the writer says %+v, the reader %+v", s, g, info, sc)
+			}
+			tot.Unordered += info.Unordered
+			tot.AdjacentRepeats += info.AdjacentRepeats
+			tot.SeparatedRepeats += info.SeparatedRepeats
+			tot.Loops += info.Loops
+			tot.EmptyMoves += info.EmptyMoves
+			tot.Beyond += info.Beyond
+			return nil
+		}
+		for n := 2; n <= 6; n++ {
+			for _, g := range gen.Classes(n) {
+				if err := try(g); err != nil {
+					return err
+				}
+			}
+		}
+		for _, n := range []int{2, 3, 4, 5, 8, 9, 15, 16, 17, 31, 32, 33, 62, 63, 64, 70} {
+			for _, p := range []float64{0.05, 0.3, 0.9} {
+				if err := try(gen.Random(rnd, n, p)); err != nil {
+					return err
+				}
+			}
+			if err := try(refPath(n - 1).AddVertex(nil)); err != nil {
+				return err
+			}
+		}
+		if certified*10 < written*9 {
+			return fmt.Errorf("free-form sparse6 writer: only %d of %d strings certified", certified, written)
+		}
+		if tot.Unordered == 0 || tot.AdjacentRepeats == 0 || tot.SeparatedRepeats == 0 || tot.Loops == 0 || tot.EmptyMoves == 0 || tot.Beyond == 0 {
+			return fmt.Errorf("free-form sparse6 writer does not use every freedom: %+v", tot)
+		}
+		// Multicode in any order; edge bytes
+		unorderedSeen := false
+		for n := 1; n <= 6; n++ {
+			for _, g := range gen.Classes(n) {
+				rec, un := freeMulticode(g, rnd)
+				pg, rest, err := codec.MulticodeParse(append([]byte{}, rec...))
+				if err != nil || len(rest) != 0 || !pg.Equal(g) {
+					return fmt.Errorf("free-order Multicode %v of %s", rec, g)
+				}
+				sorted := true
+				for i := 2; i < len(rec); i++ {
+					if rec[i] != 0 && rec[i-1] != 0 && rec[i] < rec[i-1] {
+						sorted = false
+					}
+				}
+				if sorted != (un == 0) {
+					return fmt.Errorf("free-order Multicode %v: unordered = %d", rec, un)
+				}
+				unorderedSeen = unorderedSeen || un > 0
+				for mode := 0; mode < 5; mode++ {
+					ob := oddBytes(g, rnd, mode)
+					eb := g.EdgeBytes()
+					odd := false
+					for i := range eb {
+						if (eb[i] != 0) != (ob[i] != 0) {
+							return fmt.Errorf("oddBytes(%s, mode %d) = %v", g, mode, ob)
+						}
+						odd = odd || ob[i] > 1
+					}
+					if g.M() > 0 && mode != 2 && !odd {
+						return fmt.Errorf("oddBytes(%s, mode %d) = %v has only bytes 0/1", g, mode, ob)
+					}
+					if len(ob) != len(eb) || cap(ob) <= len(ob) {
+						return fmt.Errorf("oddBytes: len %d cap %d", len(ob), cap(ob))
+					}
+				}
+			}
+		}
+		if !unorderedSeen {
+			return fmt.Errorf("free-order Multicode writer never wrote a list out of ascending order")
 		}
 		return nil
 	})
